@@ -221,6 +221,23 @@ def run(rep, tier, root=None):
                   "the profile integral must be exactly one sum over the `axis` argument (found %s)"
                   % [repr(a)[:80] for a in red], F(ATM, fn_).where())
 
+    # ---- I7 (stacks): "the integration axis argument gives the same numbers as looping over profiles".  The summand is
+    # cn2 * w^p with w the per-layer altitudes / wind speeds: the product is formed by broadcasting, which aligns a 1-D w with
+    # the LAST axis of cn2 whatever `axis` says; unless w is aligned with `axis` first (moveaxis / expand_dims / reshape), the
+    # weights attach to the profile index for axis != -1
+    for fn_ in ("coherenceTime", "isoplanaticAngle", "rytov_variance"):
+        fo = F(ATM, fn_)
+        wname = fo.params[1]
+        aligned = any(isinstance(n_, ast.Call) and norm_text(n_.func).split(".")[-1] in ("moveaxis", "swapaxes", "expand_dims", "reshape", "transpose", "rollaxis")
+                      for n_ in ast.walk(fo.node))
+        red = [a for a in find_atoms(forms[fn_], lambda a: isinstance(a, Fn) and a.name == "sum")]
+        uses_axis = bool(red) and red[0].args[1] == Rat.sym("axis")
+        weighted = bool(red) and isinstance(red[0].args[0], Rat) and red[0].args[0].depends_on(Sym(wname)) and red[0].args[0].depends_on(Sym(fo.params[0]))
+        rep.check(not (uses_axis and weighted and not aligned), "I7.axis-alignment", "%s: the per-layer weights are aligned with the integration axis" % fn_,
+                  "(%s * %s^p).sum(axis): the product broadcasts a 1-D `%s` (one value per layer) against the last axis of %s, not against "
+                  "`axis` - for a stack with the layers on another axis the weights attach to the profile index (axis=0, cn2 (5, 5), %s (5,): "
+                  "values off by up to a factor 18; cn2 (5, 3): ValueError)" % (fo.params[0], wname, wname, fo.params[0], wname), fo.where())
+
     # ---- I8 band table
     m = ix.module(AST_)
     tab = None
